@@ -222,6 +222,77 @@ func genSel(r *RNG, top *dnode, depth int) selSpec {
 	}
 }
 
+// a selector that stops early: root only, depth 0/1, or one field path without what is below it
+func narrowSel(r *RNG, n *dnode) selSpec {
+	switch r.Intn(4) {
+	case 0:
+		return selSpec{kind: 3}
+	case 1:
+		return selSpec{kind: 1, depth: uint64(r.Intn(2))}
+	case 2:
+		return selSpec{kind: 5, path: descend(r, n, 1)}
+	default:
+		return selSpec{kind: 5, path: descend(r, n, 2)}
+	}
+}
+
+// genDags fills tc.roots / tc.sels with 0..3 Dag entries (root, selector) for the root-module
+// SelectiveCar: independent roots, the same root under two selectors, a later root that lies inside
+// an earlier Dag (reached by it or not), each combined with link-visit-once on and off by the caller.
+func genDags(c *Ctx, r *RNG, tc *travCase, g *gdag, depth int) {
+	top := g.tops[0]
+	add := func(n *dnode, s selSpec) {
+		tc.roots = append(tc.roots, n.c)
+		tc.sels = append(tc.sels, s)
+	}
+	below := func(n *dnode) *dnode { // some node reachable from n (n itself for a leaf)
+		for i := r.Intn(3); i >= 0 && len(n.edges) > 0; i-- {
+			n = pick(r, n.edges).child
+		}
+		return n
+	}
+	shape := r.Intn(8)
+	switch shape {
+	case 0: // independent roots, each with its own selector
+		n := 1 + r.Intn(len(g.tops))
+		for i := 0; i < n; i++ {
+			add(g.tops[i], genSel(r, g.tops[i], depth))
+		}
+		c.Count("dags:independent-roots")
+	case 1: // no Dag at all, or the same Dag twice
+		if r.Bool() {
+			s := genSel(r, top, depth)
+			add(top, s)
+			add(top, s)
+		}
+		c.Count("dags:none-or-duplicate")
+	case 2, 3: // the same root, narrow selector first, wider one later
+		add(top, narrowSel(r, top))
+		add(top, genSel(r, top, depth))
+		if r.Chance(30) {
+			add(top, selSpec{kind: 0})
+		}
+		c.Count("dags:same-root-two-selectors")
+	case 4, 5: // a later root lies inside an earlier Dag that stopped early
+		child := below(top)
+		add(top, narrowSel(r, top))
+		add(child, genSel(r, child, depth))
+		if r.Chance(30) {
+			add(top, selSpec{kind: 0})
+		}
+		c.Count("dags:later-root-inside-narrow-earlier")
+	case 6: // a later root lies inside an earlier Dag that was fully explored
+		add(top, selSpec{kind: 0})
+		add(below(top), genSel(r, top, depth))
+		c.Count("dags:later-root-inside-full-earlier")
+	default: // inner root first, enclosing root later
+		child := below(top)
+		add(child, genSel(r, child, depth))
+		add(top, genSel(r, top, depth))
+		c.Count("dags:inner-root-first")
+	}
+}
+
 func genTravOpts(r *RNG, api uint64) travOpts {
 	o := travOpts{}
 	o.dups = r.Chance(55)
@@ -321,6 +392,35 @@ func fixedCases(c *Ctx) {
 			}
 		}
 	}
+	// several Dag entries over the diamond (root{l0->a, l1->b}, a{l0->leaf}, b{l0->leaf, l1->leaf}):
+	// the later entry's root has already been written by an earlier, narrower entry
+	all := selSpec{kind: 0}
+	var dstore []Blk
+	for _, n := range []*dnode{diamond, a, b, leaf} {
+		dstore = append(dstore, Blk{n.c, n.data})
+	}
+	for _, d := range []struct {
+		roots []*dnode
+		sels  []selSpec
+	}{
+		{[]*dnode{diamond, a}, []selSpec{{kind: 1, depth: 1}, all}},
+		{[]*dnode{diamond, diamond}, []selSpec{{kind: 3}, all}},
+		{[]*dnode{diamond, b}, []selSpec{{kind: 5, path: []string{"l0"}}, all}},
+		{[]*dnode{diamond, a, diamond}, []selSpec{{kind: 5, path: []string{"l0"}}, {kind: 3}, all}},
+		{[]*dnode{diamond, a}, []selSpec{all, all}},
+		{[]*dnode{a, diamond}, []selSpec{all, all}},
+	} {
+		for _, dups := range []bool{true, false} {
+			for _, nc := range [][2]uint64{{1, 1}, {2, 3}} {
+				tc := &travCase{api: 3, sel: all, sels: d.sels, opts: travOpts{dups: dups, ncbW: nc[0], ncbD: nc[1]}, store: dstore}
+				for _, n := range d.roots {
+					tc.roots = append(tc.roots, n.c)
+				}
+				emitTrav(c, tc, func(Val) bool { return true })
+				c.Count("fixed:multi-dag")
+			}
+		}
+	}
 	_ = r
 }
 
@@ -409,6 +509,8 @@ func init() {
 					switch api {
 					case 0, 1, 2:
 						tc.roots = []cid.Cid{top.c}
+					case 3:
+						genDags(c, r, tc, g, depth)
 					default:
 						n := 1 + r.Intn(len(g.tops))
 						if r.Chance(8) {
@@ -453,7 +555,15 @@ func init() {
 					emitTrav(c, tc, func(traces Val) bool {
 						d, rp, ok := traceStats(traces)
 						c.Count("api:" + apiNames[api])
-						c.Count("sel:" + []string{"all-recursive", "depth-limited", "field-path", "match-root", "union-of-paths"}[tc.sel.kind])
+						selNames := []string{"all-recursive", "depth-limited", "field-path", "match-root", "union-of-paths", "field-path-only"}
+						if api == 3 {
+							for _, x := range tc.sels {
+								c.Count("sel:" + selNames[x.kind])
+							}
+							c.Count("dags:entries=" + string(rune('0'+len(tc.roots))))
+						} else {
+							c.Count("sel:" + selNames[tc.sel.kind])
+						}
 						if rp {
 							c.Count("trace:repeated-loads")
 						}
